@@ -1,3 +1,5 @@
+import F3.Proofs.SkelTieNode
+import F3.Proofs.SkelTieWal
 import F3.Proofs.NodeGen2
 import F3.Proofs.EquivSys
 import F3.Proofs.EquivHost
@@ -406,4 +408,22 @@ example : (F3.Gen.Equiv2.processBroadcast 5 4 false false false true).1 = 0 ∧
     (F3.Gen.Equiv2.processBroadcast 5 5 true false true false) = (2, 5, [41, 5]) := by decide
 
 end Regenerated2
+end F3.Props.C12
+
+namespace F3.Props.C12
+section Skeletons
+
+/-- **The Go functions this property's models mirror still have the statement structure the models were written
+against**: each regenerated skeleton (pre-order list of statement kinds, `tools/go2lean/skel.go`) equals the pinned
+expectation of `F3/Proofs/SkelTie*.lean`. An added early return, cap, loop or dropped branch in one of these functions
+breaks this obligation even when no regenerated *expression* changes. -/
+theorem code_structure_as_modelled :
+    F3.Gen.SkelNode.skelProcessBroadcast = F3.SkelTie.SkelNode.skelProcessBroadcastExpected ∧
+    F3.Gen.SkelNode.skelBroadcastMessage = F3.SkelTie.SkelNode.skelBroadcastMessageExpected ∧
+    F3.Gen.SkelWal.skelWalAppend = F3.SkelTie.SkelWal.skelWalAppendExpected ∧
+    F3.Gen.SkelWal.skelWalPurge = F3.SkelTie.SkelWal.skelWalPurgeExpected ∧
+    F3.Gen.SkelWal.skelWalClose = F3.SkelTie.SkelWal.skelWalCloseExpected :=
+  ⟨F3.SkelTie.SkelNode.skelProcessBroadcast_expected, F3.SkelTie.SkelNode.skelBroadcastMessage_expected, F3.SkelTie.SkelWal.skelWalAppend_expected, F3.SkelTie.SkelWal.skelWalPurge_expected, F3.SkelTie.SkelWal.skelWalClose_expected⟩
+
+end Skeletons
 end F3.Props.C12
